@@ -24,6 +24,8 @@ type OblResult struct {
 	Note    string
 	res     *SolveResult
 	vc      *VC
+	applied int
+	inlined int
 }
 
 type Run struct {
@@ -139,6 +141,86 @@ func (r *Run) discharge(vcs []*VC) []*OblResult {
 		wg.Wait()
 	}
 	return out
+}
+
+// pipeline generates and discharges n obligation groups in a worker pool; the
+// (large) term DAG of each group is dropped as soon as it is decided.  gen may
+// be called again for an undecided group (second attempt with a longer limit).
+func (r *Run) pipeline(n int, gen func(i int) (*VC, error)) []*OblResult {
+	out := make([]*OblResult, n)
+	var wg sync.WaitGroup
+	sem := make(chan struct{}, 16)
+	solve := func(i int, timeout int, second bool) {
+		vc, err := gen(i)
+		if err != nil {
+			r.mu.Lock()
+			r.engineErr = append(r.engineErr, err.Error())
+			r.mu.Unlock()
+			return
+		}
+		if vc == nil {
+			return
+		}
+		or := &OblResult{Name: vc.Name, Layer: vc.Layer, vc: &VC{Name: vc.Name, Layer: vc.Layer, Replay: vc.Replay, Info: vc.Info, caseIdx: i}}
+		or.applied, or.inlined = vc.Exec.applied, vc.Exec.inlined
+		if len(vc.Query.Goals) == 0 {
+			or.Status, or.Backend = "discharged", "simplifier"
+			out[i] = or
+			return
+		}
+		res := Solve(vc.B, vc.Query, r.workFile(vc.Name), timeout, r.Cross && !second)
+		or.res, or.Backend, or.Ms, or.File = res, res.Backend, res.Ms, res.File
+		switch res.Status {
+		case "unsat":
+			or.Status = "discharged"
+			if second {
+				or.Note = "second attempt"
+			}
+		case "sat":
+			or.Status = "failed"
+			or.Failed = res.Failed
+		default:
+			or.Status = "undecided"
+			or.Note = res.Status + ": " + firstLine(res.Raw)
+		}
+		out[i] = or
+	}
+	for i := 0; i < n; i++ {
+		wg.Add(1)
+		sem <- struct{}{}
+		go func(i int) {
+			defer wg.Done()
+			defer func() { <-sem }()
+			solve(i, r.Timeout, false)
+		}(i)
+	}
+	wg.Wait()
+	var again []int
+	for i, o := range out {
+		if o != nil && o.Status == "undecided" {
+			again = append(again, i)
+		}
+	}
+	if len(again) > 0 && len(again) <= 64 {
+		sem2 := make(chan struct{}, 4)
+		for _, i := range again {
+			wg.Add(1)
+			sem2 <- struct{}{}
+			go func(i int) {
+				defer wg.Done()
+				defer func() { <-sem2 }()
+				solve(i, r.Timeout*4, true)
+			}(i)
+		}
+		wg.Wait()
+	}
+	var res []*OblResult
+	for _, o := range out {
+		if o != nil {
+			res = append(res, o)
+		}
+	}
+	return res
 }
 
 func firstLine(s string) string {
